@@ -3121,17 +3121,22 @@ xml2_read_cb(void *context, char *buffer, int len)
 	a = (struct archive_read *)context;
 	xar = (struct xar *)(a->format->data);
 
-	if (xar->toc_remaining <= 0)
-		return (0);
-	d = buffer;
-	outbytes = len;
-	r = rd_contents(a, &d, &outbytes, &used, xar->toc_remaining);
-	if (r != ARCHIVE_OK)
-		return (r);
-	__archive_read_consume(a, used);
-	xar->toc_remaining -= used;
-	xar->offset += used;
-	xar->toc_total += outbytes;
+	/* A return value of 0 means end of input to the XML parser, so keep
+	 * going while the decompressor consumes input without output. */
+	do {
+		if (xar->toc_remaining <= 0)
+			return (0);
+		d = buffer;
+		outbytes = len;
+		used = 0;
+		r = rd_contents(a, &d, &outbytes, &used, xar->toc_remaining);
+		if (r != ARCHIVE_OK)
+			return (r);
+		__archive_read_consume(a, used);
+		xar->toc_remaining -= used;
+		xar->offset += used;
+		xar->toc_total += outbytes;
+	} while (outbytes == 0 && used > 0);
 	PRINT_TOC(buffer, len);
 
 	return ((int)outbytes);
